@@ -47,9 +47,17 @@ def check_keyed(ctx):
         except Exception:
             ctx.note("unkeyed %s no longer exists" % nm)
     # readers populate through insert_for_record with the resolved source
+    n_deleg = 0
     for fn in ("FeoxStore::get", "FeoxStore::get_bytes", "FeoxStore::compare_and_swap_with_timestamp_and_ttl"):
         body = ctx.fn(fn, inst)
         if body is None:
+            continue
+        readers = ("FeoxStore::get", "FeoxStore::get_bytes", "FeoxStore::compare_and_swap_with_timestamp_and_ttl")
+        if not R.call("ClockCache::insert_for_record")(body) and not R.call("FeoxStore::resolve_value")(body) and \
+                any(R.call(o_)(body) for o_ in readers if o_ != fn):
+            # `get` written as `get_bytes(key)?.to_vec()`: the reader it delegates to is checked below
+            ctx.ok(inst, "PROVENANCE", body.path, "delegates the lookup (and the cache fill) to another reviewed reader", None)
+            n_deleg += 1
             continue
         ins = ctx.sites(body, R.call("ClockCache::insert_for_record"), inst, exact=1)
         rv = ctx.sites(body, R.call("FeoxStore::resolve_value"), inst, exact=1)
@@ -63,6 +71,7 @@ def check_keyed(ctx):
                 return e.k == "field" and e.extra[1] == "1" and any(c.nid in rv for c in e.calls())
             miss = A.pred_edges(body, hit, "false")
             R.guard(ctx, inst, body, [i], miss, "populated only when the value did not come from memory / cache")
+    ctx.check(n_deleg <= 1, inst, "anchor", "-", "at most one reader delegates to another (found %d)" % n_deleg, None)
     R.callers_within(ctx, inst, "ClockCache::get_for_record", ["FeoxStore::resolve_record_value"], floor=1)
 
 
